@@ -26,6 +26,7 @@ EXPLANATION = (
     "call site (a string would turn the membership test into a substring test). Not decided: the last-marker helper itself (that exactly the final element is flagged), equal widths of a "
     "custom style, Node/AnyNode reprs. An implementation that builds the prefixes differently (e.g. incrementally per level) "
     "is answered with 'cannot follow' (ANALYSIS-ERROR), not with a verdict."
+    " Added in round 16: V3 (value) by_attr prints attrname(node) / getattr(node, attrname, <fall-back>) unchanged - `getattr(...) or default` replaces falsy values; the rule follows by_attr into a shared line generator."
 )
 ASSUMPTIONS = ["_is_last(iterable) yields (item, is_last) in order with is_last true exactly for the final item (not decided here)",
                "style objects expose vertical/cont/end/empty of equal width"]
@@ -531,6 +532,18 @@ def _by_attr_value_rule(ctx, p, undecided):
     f = p.func("RenderTree", "by_attr")
     ctx.touch(f)
     attrp = f.posparams[1] if len(f.posparams) > 1 else "attrname"
+    # by_attr may only join the lines of another method of the class that is handed the selector unchanged
+    for c_ in ast.walk(f.node):
+        if isinstance(c_, ast.Call) and isinstance(c_.func, ast.Attribute) and norm(c_.func.value) == f.selfname and f.cls is not None \
+                and [norm(a_) for a_ in c_.args] == [attrp] and not c_.keywords:
+            from ..model import Func
+            mem_ = f.cls.members.get(c_.func.attr)
+            if isinstance(mem_, Func) and len(mem_.posparams) > 1 and not any(
+                    isinstance(lp_, (ast.For, ast.comprehension)) and norm(lp_.iter) == f.selfname for lp_ in ast.walk(f.node)):
+                f = mem_
+                ctx.touch(f)
+                attrp = f.posparams[1]
+                break
     local_defs = {}
     for n in ast.walk(f.node):
         if isinstance(n, ast.FunctionDef) and n is not f.node:
@@ -933,6 +946,18 @@ def _text_rule(ctx, typer, p, undecided):
     ctx.touch(st)
     reprs = [c for c in ast.walk(st.node) if isinstance(c, ast.Call) and isinstance(c.func, ast.Name) and c.func.id == "repr" and c.args
              and isinstance(c.args[0], ast.Attribute) and c.args[0].attr == "node"]
+    if not reprs:
+        # the selector handed to the shared line generator: self.<lines>(lambda node: repr(node).splitlines())
+        for c in ast.walk(st.node):
+            if isinstance(c, ast.Call) and isinstance(c.func, ast.Attribute) and norm(c.func.value) == st.selfname:
+                for a in list(c.args) + [k.value for k in c.keywords]:
+                    if isinstance(a, ast.Lambda) and len(a.args.args) == 1:
+                        prm_ = a.args.args[0].arg
+                        inner = [x for x in ast.walk(a.body) if isinstance(x, ast.Call) and isinstance(x.func, ast.Name) and x.func.id == "repr"
+                                 and len(x.args) == 1 and norm(x.args[0]) == prm_]
+                        others = [x for x in ast.walk(a.body) if isinstance(x, ast.Name) and x.id == prm_]
+                        if inner and len(others) == len(inner):
+                            reprs = inner
     if reprs:
         ctx.inst("V3", st, reprs[0], "str(RenderTree) prints the lines of repr(row.node)")
     else:
